@@ -63,7 +63,7 @@ def inventory_labels(b, api) -> list[str]:
             labels.append("c12:attribute-static-flag-differs")
         if e["kind"] == "class" and "superclasses" in e:
             if entry["superclasses"] != e["superclasses"]:
-                labels.append("c12:superclass-list-differs")
+                labels.append("c12:superclass-list-differs" + (f":{e['construct']}" if e.get("construct") else ""))
             if entry["inherits_from_exception"] != e["exception"]:
                 labels.append("c12:exception-flag-differs")
     # referential integrity: every referenced id resolves; every non-module entry has exactly one owner reference
